@@ -259,7 +259,9 @@ def carr_size(interp, c):
     for m in c.mask:
         tot = A.add(tot, V.num_of_bool(m))
     if is_sym(tot):
-        interp.int_bounds[tot.get_id()] = (0, len(c.mask))
+        lo = sum(1 for m in c.mask if simp_bool(m) is True)
+        hi = sum(1 for m in c.mask if simp_bool(m) is not False)
+        interp.int_bounds[tot.get_id()] = (lo, hi)
     return tot
 
 
@@ -705,6 +707,11 @@ def np_empty(interp, st, shape, dtype=None, **kw):
     cells = [Partial(interp.A.fresh("uninit", "int" if dt in INT_RANGES else "real") if not interp.concrete else 0,
                      False, "uninitialised array element") for _ in range(n)]
     return interp.new_array(st, shape, dt, cells=cells)
+
+
+@native
+def np_empty_like(interp, st, a, dtype=None, **kw):
+    return np_empty(interp, st, a.shape, dtype if dtype is not None else a.dtype)
 
 
 @native
@@ -1487,7 +1494,7 @@ ALIASES = {"numpy.float_": "numpy.float64", "numpy.bool_": "numpy.bool", "numba.
 LIB = {
     "math.log": _math1("log"), "math.sqrt": _math1("sqrt"), "math.erf": _math1("erf"), "math.cos": _math1("cos"),
     "math.pow": b_pow,
-    "numpy.zeros": np_zeros, "numpy.ones": np_ones, "numpy.empty": np_empty, "numpy.full": np_full,
+    "numpy.zeros": np_zeros, "numpy.ones": np_ones, "numpy.empty": np_empty, "numpy.empty_like": np_empty_like, "numpy.full": np_full,
     "numpy.full_like": np_full_like, "numpy.zeros_like": np_zeros_like, "numpy.ones_like": np_ones_like,
     "numpy.array": np_array_fn, "numpy.asarray": np_array_fn, "numpy.arange": np_arange,
     "numpy.sum": np_sum, "numpy.abs": np_abs, "numpy.round": np_round, "numpy.isnan": np_isnan, "numpy.isinf": np_isinf,
